@@ -69,6 +69,7 @@ structure LayerInfo where
   outShape : List Nat           -- layer.compute_output_shape(input_shape)[1:]
   wShape : List Nat             -- layer.get_weights()[0].shape  ([] if the layer has no weights)
   poolSize : Option (List Nat)  -- layer.pool_size if the attribute exists
+  groups : Nat := 1             -- getattr(layer, "groups", 1)
   deriving Repr, Inhabited
 
 /-- `np.max(shape)` over the non-`None` entries; `sum(shape > 1) <= 1` is the assertion -/
@@ -84,22 +85,29 @@ def opCountB (b : Branch) (L : LayerInfo) : Option Nat :=
     let pool := match L.poolSize with
       | some p => p
       | none => L.inShape.dropLast               -- input_shape[1:-1]
+    -- a pooling window is evaluated at every output position (output_shape[1:-1]); global
+    -- pooling (no `pool_size` attribute) has a single one        [fix 86c5631]
+    let positions := match L.poolSize with
+      | some _ => prodL L.outShape.dropLast
+      | none => 1
     match L.outShape.getLast? with
-    | some co => some (co * prodL pool)
+    | some co => some (positions * co * prodL pool)
     | none => none
   | .upSampling => some (prodL L.outShape)
   | .actBn => some (prodL L.inShape)
   | .conv2d =>
     match L.inShape, L.outShape, L.wShape with
-    | [_, _, ci], [ho, wo, co], [kh, kw, _, _] => some (ho * wo * co * kh * kw * ci)
+    -- each output channel only sees the input channels of its group   [fix 86c5631]
+    | [_, _, ci], [ho, wo, co], [kh, kw, _, _] => some (ho * wo * co * kh * kw * (ci / L.groups))
     | _, _, _ => none
   | .conv1d =>
     match L.inShape, L.outShape, L.wShape with
-    | [_, ci], [to, co], [k, _, _] => some (to * co * k * ci)
+    | [_, ci], [to, co], [k, _, _] => some (to * co * k * (ci / L.groups))
     | _, _, _ => none
   | .depthwise =>
     match L.inShape, L.outShape, L.wShape with
-    | [_, _, ci], [ho, wo, _], [kh, kw, _, _] => some (kh * kw * ho * wo * ci)
+    -- channels_o = channels_i * depth_multiplier                        [fix 86c5631]
+    | [_, _, _], [ho, wo, co], [kh, kw, _, _] => some (kh * kw * ho * wo * co)
     | _, _, _ => none
   | .dense =>
     if L.inShape.isEmpty || L.outShape.isEmpty then none
@@ -231,10 +239,10 @@ def macSepConv1d (p : Padding) (n k s d ci dm co : Nat) : Nat :=
 
 def conv2dInfo (p : Padding) (h w kh kw sh sw dh dw ci co groups : Nat) : LayerInfo :=
   { inShape := [h, w, ci], outShape := [convOutLen p h kh sh dh, convOutLen p w kw sw dw, co],
-    wShape := [kh, kw, ci / groups, co], poolSize := none }
+    wShape := [kh, kw, ci / groups, co], poolSize := none, groups := groups }
 def conv1dInfo (p : Padding) (n k s d ci co groups : Nat) : LayerInfo :=
   { inShape := [n, ci], outShape := [convOutLen p n k s d, co], wShape := [k, ci / groups, co],
-    poolSize := none }
+    poolSize := none, groups := groups }
 def depthwiseInfo (p : Padding) (h w kh kw sh sw dh dw ci dm : Nat) : LayerInfo :=
   { inShape := [h, w, ci], outShape := [convOutLen p h kh sh dh, convOutLen p w kw sw dw, ci * dm],
     wShape := [kh, kw, ci, dm], poolSize := none }
